@@ -273,6 +273,10 @@ def run(ctx):
     for desc, q, cf, ext, want in (
             ("plain", {"type": "select one", "parameters": {}}, None, "", {"itemset": "lst", "list_name": "lst", "choices": "CH"}),
             ("filtered", {"type": "select one", "parameters": {}}, "a=1", "", {"itemset": "lst", "list_name": "lst", "choices": "CH"}),
+            # the choices travel with the question whatever its parameters are: the control builder needs them to choose
+            # between an inline label and the item's itext id
+            ("randomized", {"type": "select one", "parameters": {"randomize": "true"}}, None, "", {"itemset": "lst", "list_name": "lst", "choices": "CH"}),
+            ("randomized with seed and filter", {"type": "select one", "parameters": {"randomize": "true", "seed": "3"}}, "a=1", "", {"itemset": "lst", "list_name": "lst", "choices": "CH"}),
             ("external", {"type": "select one external", "parameters": {}}, "a=1", "", {"itemset": "lst", "query": "lst"}),
             ("from file", {"type": "select one", "parameters": {}}, None, ".csv", {"itemset": "lst"})):
         it.reset([])
